@@ -97,7 +97,17 @@ func freshListing(c *deps.Code) []ModelRow {
 		if i > 0 {
 			rows = append(rows, ModelRow{Kind: "blank"})
 		}
-		rows = append(rows, ModelRow{Kind: "header", Block: i + 1, Addr: uint64(b.Begin())})
+		// Blocks never move in the address space and instruction moves only
+		// permute a block's instructions, so a block starts where the
+		// lowest-addressed of its instructions originally was (derived
+		// here rather than asked from the block).
+		start := uint64(b.Begin())
+		for k, in := range b.Instructions() {
+			if a := uint64(in.OrigAddr()); k == 0 || a < start {
+				start = a
+			}
+		}
+		rows = append(rows, ModelRow{Kind: "header", Block: i + 1, Addr: start})
 		for _, in := range b.Instructions() {
 			var hx []string
 			for _, x := range in.Bytes() {
